@@ -1,12 +1,65 @@
 /-
-  Line-protocol handlers for C13.  `handle` receives the tokens after the property id.
+  Line-protocol handlers for C13 (fitness from the phenotype, once, counted honestly).
 -/
 import GEVerif.Model.Sexp
+import GEVerif.Model.Eval
+import GEVerif.Model.EvalWire
 
 namespace GEVerif.Drive.C13
-open GEVerif Sexp
+open GEVerif Sexp GEVerif.Eval GEVerif.Eval.Wire
+
+/-- individuals that arrive already evaluated (honestly, by someone else: no count, no log) -/
+def preEvaluate (Ps : List Problem) (pre : List (Nat × Nat)) (st : EvalState) : EvalState :=
+  let st' := pre.foldl (fun st e => match Ps[e.1]? with
+    | some P => evalOne P e.1 st e.2
+    | none => st) st
+  { store := st'.store }
+
+def ofState (st : EvalState) : Sexp :=
+  list [ofNat st.count, ofLog st.log, list (st.store.map (fun ind => ofCache ind.cache))]
+
+/-- decidable form of `Honest` + "presented ⇒ has a fitness", on the implementation's output -/
+def propHonest (Ps : List Problem) (phenos : List Int) (count : Nat) (log : List (Nat × Nat))
+    (caches : List (List (Nat × Fitness))) (presented : List (Nat × Nat)) : Bool :=
+  -- counter = number of invocations
+  log.length == count &&
+  -- each (problem, individual) at most once
+  (List.range log.length).all (fun k => match log[k]? with
+    | some e => !(log.take k).contains e
+    | none => false) &&
+  -- every recorded fitness is the problem's function of the phenotype
+  caches.length == phenos.length &&
+  (List.range phenos.length).all (fun i => match caches[i]?, phenos[i]? with
+    | some c, some ph => c.all (fun e => match Ps[e.1]? with
+        | some P => decide (e.2 = P.fitnessOf ph)
+        | none => false)
+    | _, _ => false) &&
+  -- whatever was evaluated or presented carries a fitness
+  (log ++ presented).all (fun e => match caches[e.2]? with
+    | some c => (cacheGet e.1 c).isSome
+    | none => false)
 
 def handle : List Sexp → Option Sexp
+  | [atom "run", ps, phenos, pre, calls] => do
+      let Ps ← (← ps.asList?).mapM parseProblem
+      let phenos ← phenos.asInts?
+      let pre ← parseLog pre
+      let calls ← (← calls.asList?).mapM parseCall
+      pure (ofState (runCalls Ps (preEvaluate Ps pre (fresh phenos)) calls))
+  | [atom "aggregate", k, raw] => do
+      pure (ofFitness ((← parseKind k).evaluate (← raw.asInts?)))
+  | [atom "default_fitness", cache] => do
+      let ind : Indiv := { pheno := 0, cache := ← parseCache cache }
+      pure (match ind.defaultFitness? with
+        | some f => ofFitness f
+        | none => atom "none")
+  | [atom "prop_honest", ps, phenos, count, log, caches, presented] => do
+      let Ps ← (← ps.asList?).mapM parseProblem
+      let caches ← (← caches.asList?).mapM parseCache
+      pure (ofBool (propHonest Ps (← phenos.asInts?) (← count.asNat?) (← parseLog log) caches (← parseLog presented)))
+  | [atom "prop_same", a, b] =>
+      -- two evaluators, same population: same fitness values on the same individuals, same count
+      pure (ofBool (a == b))
   | _ => none
 
 end GEVerif.Drive.C13
